@@ -19,7 +19,7 @@ func (f *Frame) builtin(x *ssa.Call, name string, args []SV, pc string, st *Stat
 		case *types.Slice:
 			f.set(x, SV{T: fmt.Sprintf("(s.%s %s)", name, a.T)})
 		case *types.Basic:
-			f.set(x, SV{T: fmt.Sprintf("(str.len %s)", a.T)})
+			f.set(x, SV{T: fmt.Sprintf("(gostr.len %s)", a.T)})
 		case *types.Array:
 			f.set(x, SV{T: vc.S.idxLit(u.Len())})
 		case *types.Pointer:
@@ -57,8 +57,8 @@ func (f *Frame) appendOp(pos token.Pos, s, t SV, st0, tt types.Type, pc string, 
 	var srcAt func(j string) string
 	static := -1
 	if isString(tt) {
-		klen = fmt.Sprintf("(str.len %s)", t.T)
-		srcAt = func(j string) string { return fmt.Sprintf("(select (str.arr %s) %s)", t.T, j) }
+		klen = fmt.Sprintf("(gostr.len %s)", t.T)
+		srcAt = func(j string) string { return fmt.Sprintf("(select (gostr.arr %s) %s)", t.T, j) }
 		if id := strings.TrimPrefix(t.T, "str!"); id != t.T {
 			for str, n := range vc.strIDs {
 				if fmt.Sprintf("%d", n) == id {
